@@ -178,6 +178,10 @@ CATALOGUE = [
         for accessor_name, synt_id in self._LOCAL_SYNTAX.items():
             color_fmt = colors_conf.get_color(synt_id)
 """, note="a synced palette is refreshed only the first time it meets a configuration"),
+    dict(id="m10_enum_hands_out_cached_list", prop="C10", file="ak/ppobj.py",
+         old="        return list(ch_chunks), align\n",
+         new="        return ch_chunks, align\n",
+         note="the original defect (fixed in /repo): the enum field type returns the list it keeps in its cache"),
     dict(id="m10_shared_border_line", prop="C10", file="ak/ppobj.py",
          old="""        # 4. one more border_line
         yield CHText(border_line)
